@@ -488,3 +488,73 @@ func ZZ_C15_ServerHandle() {
 	}
 	zzReach("C15.handle.done")
 }
+
+// zzFrame: the bytes of one request frame, as the real Wire.Write puts them on a connection.
+func zzFrame(m *Message) []byte {
+	a, _ := zzConnPair()
+	w := zzWire(a)
+	if w.Write(m) != nil {
+		return nil
+	}
+	var out []byte
+	for _, chunk := range a.out.sent {
+		out = append(out, chunk...)
+	}
+	return out
+}
+
+// C15 (replies are not held back by what else is on the connection): TCP hands the
+// replica whatever bytes have arrived - a complete request followed by the first bytes of
+// the next one, or two complete requests at once.  The reply to a request the replica has
+// served is sent without waiting for the rest of the next frame (a reply withheld runs the
+// requester into its deadline, which fails the whole connection); once the rest arrives,
+// the second request is answered too, in order.
+func ZZ_C15_ServerCoalesced() {
+	a, b := zzConnPair()
+	data := &zzData{fill: 3}
+	srv := &Server{wire: zzWire(b), responses: make(chan *Message, 1024), done: make(chan struct{}, 5), data: data}
+	ended := make(chan bool, 1)
+	go func() {
+		srv.Handle()
+		ended <- true
+	}()
+	kinds := []uint32{TypeRead, TypeWrite, TypePing}
+	r1 := &Message{MagicVersion: MagicVersion, Seq: 7, Type: kinds[zzConcretize(zzChoice("first", 3))], Offset: 0, Size: 2}
+	r2 := &Message{MagicVersion: MagicVersion, Seq: 8, Type: kinds[zzConcretize(zzChoice("second", 3))], Offset: 4096, Size: 2}
+	for _, r := range []*Message{r1, r2} {
+		if r.Type == TypeWrite {
+			r.Data = []byte{1, 2}
+		}
+	}
+	f1, f2 := zzFrame(r1), zzFrame(r2)
+	zzAssume(len(f1) > 0 && len(f2) > 0)
+	cut := zzConcretize(zzChoice("cut", 4)) // how much of the second frame arrives with the first
+	k := []int{0, 1, len(f2) / 2, len(f2)}[cut]
+	first := append(append([]byte{}, f1...), f2[:k]...)
+	a.out.ch <- first
+	zzSettle()
+	peer := zzWire(a)
+	zzAssert(len(a.in.ch) > 0 || len(a.in.buf) > 0, "C15.coalesced.reply-to-a-served-request-withheld-while-the-next-frame-is-incomplete")
+	if len(a.in.ch) == 0 && len(a.in.buf) == 0 {
+		return
+	}
+	resp1, err1 := peer.Read()
+	zzAssert(err1 == nil && resp1 != nil && resp1.Seq == 7, "C15.coalesced.first-reply-wrong")
+	if k < len(f2) {
+		a.out.ch <- append([]byte{}, f2[k:]...)
+		zzSettle()
+	}
+	got2 := make(chan *Message, 1)
+	go func() {
+		m, _ := peer.Read()
+		got2 <- m
+	}()
+	zzSettle()
+	zzAssert(len(got2) == 1, "C15.coalesced.second-request-never-answered")
+	if len(got2) == 1 {
+		resp2 := <-got2
+		zzAssert(resp2 != nil && resp2.Seq == 8, "C15.coalesced.second-reply-wrong")
+	}
+	zzAssert(len(ended) == 0, "C15.coalesced.server-gave-up-on-a-healthy-connection")
+	zzReach("C15.coalesced.done")
+}
